@@ -812,6 +812,7 @@ def get_mttkrp_factors(
     U: Union[ttb.ktensor, Sequence[np.ndarray]], n: Union[int, np.integer], ndims: int
 ) -> Sequence[np.ndarray]:
     """Apply standard checks and type conversions for mttkrp factors."""
+    assert 0 <= n < ndims, "Mode must be in the range of the tensor's dimensions"
     if isinstance(U, ttb.ktensor):
         U = U.copy()
         # Absorb lambda into one of the factors but not the one that is skipped
